@@ -18,9 +18,72 @@ void Ctx::viol(const std::string &key, const std::string &desc)
   rep.violation(key, desc, case_json);
 }
 
-static void *lm(size_t n) { return vf::l_malloc(n); }
-static void  lf(void *p) { vf::l_free(p); }
-static void *lr(void *p, size_t n) { return vf::l_realloc(p, n); }
+// Allocator handed to c-ares = the shared ledger allocator, except that blocks
+// of >= 128 KiB (the RR arrays c-ares pre-sizes from the header counts: a
+// mutated count byte asks for up to 3 x 65535 x sizeof(RR)) are served from a
+// small pool of recycled blocks.  Without it every such parse costs a fresh
+// mmap + page faults + shadow poisoning (~3 ms).  Pooled blocks stay in the
+// ledger (leaks are still seen), are poisoned beyond the requested size and
+// while free (overruns / use-after-free are still seen by ASan).
+extern "C" void __asan_poison_memory_region(void const volatile *addr, size_t size);
+extern "C" void __asan_unpoison_memory_region(void const volatile *addr, size_t size);
+static const size_t                     BIG = 128 * 1024;
+static std::unordered_map<void *, size_t> big_cap;  // live pooled blocks -> capacity
+static std::vector<std::pair<void *, size_t>> big_free;
+static void *lm(size_t n)
+{
+  if (n < BIG) return vf::l_malloc(n);
+  if (vf::ledger_should_fail()) return nullptr;
+  size_t best = big_free.size();
+  for (size_t i = 0; i < big_free.size(); i++)
+    if (big_free[i].second >= n && (best == big_free.size() || big_free[i].second < big_free[best].second)) best = i;
+  void  *p;
+  size_t cap;
+  if (best != big_free.size()) {
+    p   = big_free[best].first;
+    cap = big_free[best].second;
+    big_free.erase(big_free.begin() + (long)best);
+  } else {
+    cap = (n + (1u << 20) - 1) & ~(size_t)((1u << 20) - 1);
+    p   = malloc(cap);
+    if (!p) return nullptr;
+    if (big_free.size() > 8) { // keep the pool small
+      free(big_free[0].first);
+      big_free.erase(big_free.begin());
+    }
+  }
+  __asan_unpoison_memory_region(p, n);
+  __asan_poison_memory_region((char *)p + n, cap - n);
+  vf::ledger().live[p] = n;
+  big_cap[p]           = cap;
+  return p;
+}
+static void lf(void *p)
+{
+  if (!p) return;
+  auto it = big_cap.find(p);
+  if (it == big_cap.end()) {
+    vf::l_free(p);
+    return;
+  }
+  vf::ledger().live.erase(p);
+  __asan_poison_memory_region(p, it->second);
+  big_free.push_back({ p, it->second });
+  big_cap.erase(it);
+}
+static void *lr(void *p, size_t n)
+{
+  if (!p) return lm(n);
+  bool pooled = big_cap.count(p) != 0;
+  if (!pooled && n < BIG) return vf::l_realloc(p, n);
+  auto   lit = vf::ledger().live.find(p);
+  size_t old = lit == vf::ledger().live.end() ? 0 : lit->second;
+  void  *q   = lm(n);
+  if (!q) return nullptr;
+  memcpy(q, p, old < n ? old : n);
+  lf(p);
+  return q;
+}
 
 void init_library()
 {
@@ -599,12 +662,16 @@ void run_c02(Ctx &c, const CaseInfo &ci)
     if (ref::namefail_is_pointer_rule(rd.first_name_fail)) c.rep.witness("forward_pointer_rejected");
   }
   for (int w = 0; w < LP_N; w++) {
+    // argument variants only matter once the message parses; a rejected message takes the same
+    // early-exit path whatever the output arguments are, so one variant per entry point is run
     if (w == LP_A || w == LP_AAAA) {
-      c02_check_legacy(c, (LP)w, call_legacy((LP)w, p, len, true, -1), true);
       c02_check_legacy(c, (LP)w, call_legacy((LP)w, p, len, true, 1), true);
-      c02_check_legacy(c, (LP)w, call_legacy((LP)w, p, len, false, 3), false);
+      if (ok0 || ci.is_base) {
+        c02_check_legacy(c, (LP)w, call_legacy((LP)w, p, len, true, -1), true);
+        c02_check_legacy(c, (LP)w, call_legacy((LP)w, p, len, false, 3), false);
+      }
     } else if (w == LP_PTR) {
-      for (int pv = 0; pv < 3; pv++) c02_check_legacy(c, LP_PTR, call_legacy(LP_PTR, p, len, true, -1, pv), true);
+      for (int pv = 0; pv < ((ok0 || ci.is_base) ? 3 : 1); pv++) c02_check_legacy(c, LP_PTR, call_legacy(LP_PTR, p, len, true, -1, pv), true);
     } else c02_check_legacy(c, (LP)w, call_legacy((LP)w, p, len), true);
   }
   if (ci.all_offsets) {
@@ -1139,6 +1206,7 @@ void run_c18(Ctx &c, const CaseInfo &ci)
   else c.rep.witness("parse_fail");
   AddrExp ae;
   if (rec) ae = addr_expect(rec);
+  LedgerScope *hide = new LedgerScope(); // rec stays alive while the legacy parsers run
   auto rejected = [&](LP w, const LRes &r) {
     std::string fn = LPN[w];
     c.rep.executions++;
@@ -1158,6 +1226,7 @@ void run_c18(Ctx &c, const CaseInfo &ci)
       for (int cap = -1; cap <= (int)n + 1; cap++) {
         for (int wh = 1; wh >= 0; wh--) {
           if (!wh && cap != (int)n && cap != 1) continue; // without hostent: capacity N and 1
+          if (!rec && (cap == 0 || !wh)) continue;        // rejected message: (host), (host + capacity 1)
           LRes r = call_legacy(w, p, len, wh != 0, cap);
           if (!rec) {
             rejected(w, r);
@@ -1179,7 +1248,7 @@ void run_c18(Ctx &c, const CaseInfo &ci)
         c18_compare_hostent(c, w, rec, r, 0);
       }
     } else if (w == LP_PTR) {
-      for (int pv = 0; pv < 3; pv++) {
+      for (int pv = 0; pv < (rec ? 3 : 1); pv++) {
         LRes r = call_legacy(w, p, len, true, -1, pv);
         if (!rec) rejected(w, r);
         else {
@@ -1198,8 +1267,10 @@ void run_c18(Ctx &c, const CaseInfo &ci)
       }
     }
   }
+  delete hide;
   if (rec) ares_dns_record_destroy(rec);
-  ledger_clean();
+  std::string what;
+  if (!ledger_clean(&what)) c.viol("C18:leak:ares_dns_record_destroy", what);
 }
 
 } // namespace exc
